@@ -5,7 +5,7 @@ from __future__ import annotations
 import ast
 
 from ..annot import AnnotateModel
-from ..core import Ctx, assigned_names, dotted, norm, stmts_local, walk_local
+from ..core import Ctx, assigned_names, dotted, norm, stmts_local, walk_local, presence_test
 from .c09 import shared_structure
 
 
@@ -18,8 +18,9 @@ def run_c10(ctx: Ctx, M: AnnotateModel):
     # the updater variable: the name tested for truthiness whose true side rebinds S/E
     UPD = None
     for n in walk_local(M.LOOP):
-        if isinstance(n, ast.If) and isinstance(n.test, ast.Name) and any(S in assigned_names(s) for s in n.body):
-            UPD = n.test.id
+        pt = presence_test(n.test) if isinstance(n, ast.If) else None
+        if pt and pt[1] and isinstance(n.test, (ast.Name, ast.Compare)) and pt[0].isidentifier() and any(S in assigned_names(s) for s in n.body):
+            UPD = pt[0]
     ctx.ob("C10-STRUCT", f"{q}/updater", UPD is not None, "offset-updater test located", node=M.LOOP, mod=m, nontrivial=False)
     if UPD is None:
         return
@@ -38,7 +39,7 @@ def run_c10(ctx: Ctx, M: AnnotateModel):
     # R-C10-1: direct paths
     n_direct, bad = 0, []
     for rec in M.paths:
-        if not rec.has(UPD, False) or not rec.has(f"{S} < {CUR}", False):
+        if not rec.absent(UPD) or not rec.has(f"{S} < {CUR}", False):
             continue
         if "wrap" in rec.trace:
             continue
